@@ -50,6 +50,7 @@ class Track:
         self.timeline: Timeline = timeline
         self.current_time: float = 0.0
         self.next_event_time: float = sys.maxsize
+        self.next_event_time_error: float = 0.0
         self.max_event_count: int = max_event_count
         self.current_event_count: int = 0
         self.name: str = name
@@ -211,7 +212,7 @@ class Track:
                         # If no more events are available, this raises StopIteration.
                         #--------------------------------------------------------------------------------
                         self.current_event = self.get_next_event()
-                        self.next_event_time += float(self.current_event.duration)
+                        self._advance_next_event_time(float(self.current_event.duration))
 
                     #--------------------------------------------------------------------------------
                     # Perform the event.
@@ -280,6 +281,19 @@ class Track:
                 self.is_finished = True
 
         self.current_time = self.timeline.time_after_tick(self.current_time)
+
+    def _advance_next_event_time(self, duration: float) -> None:
+        """
+        Add an event's duration to next_event_time with compensated (Kahan) summation.
+        A plain += loses the low-order bits of every addition; over some 10^4..10^5 events
+        with durations that are not exact in binary (0.1, 1/3) the error passes the 5e-9
+        tolerance of the round(…, 8) comparisons and events are performed a tick late.
+        The bits lost by one addition are carried into the next one instead.
+        """
+        duration = duration - self.next_event_time_error
+        next_event_time = self.next_event_time + duration
+        self.next_event_time_error = (next_event_time - self.next_event_time) - duration
+        self.next_event_time = next_event_time
 
     def _duration_to_ticks(self, duration: float) -> int:
         """
